@@ -28,7 +28,10 @@ type rangeAggIterator struct {
 	// window state
 	window   map[GroupingKey]Series
 	interval time.Duration
-	entry    SampledEntry
+	// offset is the `offset` modifier: start and end are already shifted by it,
+	// steps are reported at the unshifted evaluation time.
+	offset time.Duration
+	entry  SampledEntry
 	// buffered whether last entry is buffered
 	buffered bool
 }
@@ -47,6 +50,11 @@ func RangeAggregation(
 	agg, err := buildBatchAggregator(expr)
 	if err != nil {
 		return nil, errors.Wrap(err, "build aggregator")
+	}
+
+	var offset time.Duration
+	if o := expr.Range.Offset; o != nil {
+		offset = o.Duration
 	}
 
 	var (
@@ -73,6 +81,7 @@ func RangeAggregation(
 
 		window:   map[GroupingKey]Series{},
 		interval: expr.Range.Range,
+		offset:   offset,
 	}, nil
 }
 
@@ -88,7 +97,7 @@ func (i *rangeAggIterator) Next(r *Step) bool {
 	i.fillWindow(windowStart, windowEnd)
 
 	// Aggregate the window.
-	r.Timestamp = otelstorage.NewTimestampFromTime(current)
+	r.Timestamp = otelstorage.NewTimestampFromTime(current.Add(i.offset))
 	r.Samples = r.Samples[:0]
 	for _, s := range i.window {
 		r.Samples = append(r.Samples, Sample{
